@@ -4,5 +4,6 @@ CONSTANTS
   K = 5
   ALPHA = {97, 32, 10, 39, 34, 92}
   EMIT = TRUE
+  STARTED = TRUE
 INVARIANTS EqualsRef NoPhantomArgs NothingLostInBuffers RefLawsHold EmitVectors
 CHECK_DEADLOCK FALSE
